@@ -75,6 +75,7 @@ def family(pid, tier, seed):
             GG.exhaustive_inputs(g, exh, seen)
             GG.random_inputs(g, rng, rnd, 9, seen)
             gs.append(g)
+        gs += [g for g in curated_core(rng, with_tokens=False) if g["id"] in ("u0", "u1")]
     return gs
 
 
@@ -143,6 +144,13 @@ def curated_core(rng, with_tokens=True):
         # one []lexer.Token / lexer.Token field written by several separate captures (the last capture wins)
         gs.append(mk_grammar("t3", [("P0", seq(cap("R", "tokens", ref("Ident")), grp("star", seq(lit("("), cap("R", "tokens", grp("once", seq(ref("Ident"), grp("opt", ref("Int"))))))), grp("opt", cap("K", "token", ref("Int"))), grp("opt", cap("K", "token", lit(")")))),
                                      [F("R", "tokens"), F("K", "token")])], with_pos=True))
+    # a union in an optional / repeated position whose earlier member fails beyond the lookahead
+    gs.append(mk_grammar("u0", [("P0", seq(grp("opt", cap("H", "union", {"op": "union", "u": "U0"})), grp("star", cap("R", "strings", grp("once", alt(ref("Ident"), lit("("), lit(")")))))), [F("H", "union", "U0"), F("R", "strings")]),
+                                 ("P1", seq(lit("a"), lit("b"), cap("X", "string", lit("("))), [F("X", "string")]),
+                                 ("P2", seq(lit("a"), lit("b"), cap("Y", "string", lit(")"))), [F("Y", "string")])], unions={"U0": ["P1", "P2"]}, ks=(0, 1, 2, 3, -1)))
+    gs.append(mk_grammar("u1", [("P0", seq(grp("star", cap("H", "unions", {"op": "union", "u": "U0"})), grp("opt", cap("R", "strings", ref("Ident")))), [F("H", "unions", "U0"), F("R", "strings")]),
+                                 ("P1", seq(lit("("), cap("X", "strings", ref("Ident")), cap("X", "strings", ref("Ident")), lit(")")), [F("X", "strings")]),
+                                 ("P2", seq(lit("("), cap("Y", "string", ref("Ident")), lit("!")), [F("Y", "string")])], unions={"U0": ["P1", "P2"]}, ks=(0, 1, 2, 3, -1)))
     # explicit EOF
     gs.append(mk_grammar("e0", [("P0", seq(grp("plus", cap("W", "strings", ref("Ident"))), grp("once", alt(lit(";"), ref("EOF")))), [F("W", "strings")])], trailing=True))
     gs.append(mk_grammar("e1", [("P0", seq(cap("A", "string", ref("Ident")), grp("opt", cap("B", "strings", ref("Int"))), grp("once", alt(seq(lit("!"), ref("EOF")), ref("EOF"), lit("(")))), [F("A", "string"), F("B", "strings")])], trailing=True, ks=(0, 1, -1)))
